@@ -29,7 +29,19 @@ pub fn parse_tables(text: &str) -> Result<Vec<Table>, String> {
     let mut cur: Option<Table> = None;
     for (ln, line) in text.lines().enumerate() {
         let t = line.trim();
-        if let Some(rest) = t.strip_prefix("static ") {
+        // a table item: `static` or `const`, whatever its visibility (the item kind and the
+        // visibility say nothing about what the table denotes)
+        let item = {
+            let mut r = t;
+            for vis in ["pub(crate) ", "pub(super) ", "pub "] {
+                if let Some(x) = r.strip_prefix(vis) {
+                    r = x;
+                    break;
+                }
+            }
+            r.strip_prefix("static ").or_else(|| r.strip_prefix("const ")).filter(|x| x.contains(": [") && x.trim_end().ends_with('['))
+        };
+        if let Some(rest) = item {
             let colon = rest.find(':').ok_or(format!("line {}: no colon", ln + 1))?;
             let name = rest[..colon].trim().to_string();
             let semi = rest.rfind(';').ok_or(format!("line {}: no length", ln + 1))?;
